@@ -9,7 +9,7 @@
 
    Family "mask": a history of ignoreErrors calls followed by handleError probes. *)
 From Coq Require Import List Bool ZArith NArith.
-From PC Require Import Base.Outcome Base.Libs Gen.Params Model.Errors.
+From PC Require Import Base.Atoms Base.Xml Base.Outcome Base.Libs Gen.Params Model.Errors Model.LoadSites.
 Import ListNotations.
 
 Definition exn_of_code (n : nat) : exn :=
@@ -115,7 +115,10 @@ Inductive case :=
             (completed : bool) (base fault : list snap) (affected : list (nat * N))
             (loaded item_elems : list (nat * N))
   | CaseMask (steps : list mstep) (mask_len : nat)
-  | CaseNotXml (runs : list run).   (* bytes that expat rejects *)
+  | CaseNotXml (runs : list run)    (* bytes that expat rejects *)
+  (* one loader object with a fault inside: the class its static load() raises when called directly,
+     and the class that escapes Collada(...) for the whole document (0 = none) *)
+  | CaseSite (k : skind) (ns : atom) (effects : list atom) (x : xml) (direct : nat) (doc : nat).
 
 (* the model of reading bytes that do not parse: [load_bytes] with a parser answering None *)
 Definition notxml_ok (r : run) : bool :=
@@ -135,6 +138,12 @@ Definition case_ok (c : case) : bool :=
       let '(mk, ok) := run_msteps [] steps in
       Nat.eqb (length mk) mask_len && ok
   | CaseNotXml runs => forallb notxml_ok runs
+  | CaseSite k ns effects x direct doc =>
+      Nat.eqb (ocode (site_load ns effects k x)) direct &&
+      match guarded ns effects k x with
+      | Raise e => Nat.eqb (exn_code e) doc
+      | Ok _ => true
+      end
   end.
 
 Fixpoint mismatches_from (i : nat) (cs : list case) : list nat :=
